@@ -22,7 +22,7 @@ T = [
 ("C05","fix: OrefaFS.Rename moved a directory below itself","OrefaFS.Rename(dir, dir/x) detached the directory and rewrote the path index onto itself, or panicked on a nil children map for an empty directory"),
 ("C07","fix: OrefaFS.Rename and Link accepted a regular file","OrefaFS.Rename(a, file/x) panicked (nil map) and Link(a, file/x) attached a link below a regular file (kernel: ENOTDIR)"),
 ("C07","fix: OrefaFile.Stat panicked","OrefaFile.Stat (hence ReadFile, Glob, WalkDir) panicked with slice bounds out of range for a file opened with a relative name"),
-("C01","fix: MemFS.Rename of a symbolic link replaced","MemFS.Rename(symlink, existing directory) replaced the directory, dropping its tree (kernel/os.Rename: EEXIST)"),
+("C01","fix: MemFS.Rename of a symbolic link replaced","MemFS.Rename(symlink, existing directory) replaced the directory, dropping its tree (os.Rename: EEXIST), and Rename(symlink, existing file) left the replaced file's link counter untouched"),
 ("C05","fix: MemFS.Rename of a file onto one of its own hard links","MemFS.Rename(a, b) with a and b hard links to the same file removed a and left a stale link count (rename(2): no-op); Rename(file, symlink) failed with EEXIST (kernel replaces the link)"),
 ("C07","fix: OrefaFS.Rename into an empty directory","OrefaFS.Rename(x, emptydir/y) panicked: assignment to entry in nil map"),
 ("C05","fix: OrefaFS.Rename over an existing file left","OrefaFS.Rename over a multiply-linked file left a stale link counter; Rename(a,b) with a,b hard links of one file removed a (rename(2): no-op)"),
@@ -39,6 +39,7 @@ T = [
 ("C07","fix: RoFS.Create and CreateTemp returned a zero","RoFS.Create and CreateTemp returned a zero RoFile together with the error; every method of that value panicked"),
 ("C07","fix: FromUnixPath panicked","avfs.FromUnixPath(vfs, \"\") on a Windows-typed file system panicked (index out of range)"),
 ("C12","fix: FailFS.Sub and CreateTemp handed out","FailFS.Sub and FailFS.CreateTemp returned unwrapped base objects: calls through them never consulted the failure function (failures not injected, read-only plan bypassed); CreateTemp returned a zero FailFile whose methods panic when refused"),
+("C10","fix: BasePathFS let paths","BasePathFS: '/../x', '../../x' after Chdir and relative paths reached files above the base directory (read, create, rename onto, remove), and Getwd, Abs, and error-path translation panicked in FromBasePath"),
 ]
 log = subprocess.check_output(['git','-C','/repo','log','--format=%h %s','adfd2e3..HEAD']).decode().strip().split('\n')
 subj = {}
